@@ -229,7 +229,7 @@ pub fn run_case(lines: &[String], out: &mut String) {
             continue;
         }
         match toks[0] {
-            "case" | "end" | "#" => {}
+            "case" | "end" | "#" | "expect" => {}
             "cfg" => cfg = Some(parse_cfg(line)),
             "peer" => {
                 let b = unhex(toks[1]);
